@@ -261,7 +261,7 @@ func (i ItemCollection) Equals(with Item) bool {
 	if !with.IsCollection() {
 		return false
 	}
-	if with.GetType() != CollectionOfItems {
+	if typ := with.GetType(); typ != CollectionOfItems && typ != CollectionOfIRIs {
 		return false
 	}
 	result := true
